@@ -661,6 +661,13 @@ def ite(c, a, b):
         a, b = SBV.coerce(a, b)
         return SBV(z3.If(cc, a.t, b.t), a.signed)
     if isinstance(a, SFP) or isinstance(b, SFP):
+        def lift(x, like):
+            if isinstance(x, SFP):
+                return x
+            if isinstance(x, Sym):
+                raise Unsupported("if-then-else between an IEEE term and another symbolic kind")
+            return SFP(z3.FPVal(builtins.float(x), like.sort))
+        a, b = lift(a, b if isinstance(b, SFP) else a), lift(b, a if isinstance(a, SFP) else b)
         return SFP(z3.If(cc, a.t, b.t))
     if isinstance(a, UVal) or isinstance(b, UVal):
         return UVal(z3.If(cc, _uval_t(a), _uval_t(b)))
